@@ -185,7 +185,7 @@ func genC08(r *rand.Rand, i int, remoteDir string) *c08plan {
 		add("a", "select 1").Snap = "merge.pre"
 		add("a", "set @@dolt_allow_commit_conflicts = 1")
 		add("a", "call dolt_merge('mother')")
-		if r.Intn(2) == 0 {
+		if i%2 == 1 {
 			// the branch is force-moved while the merge is in progress: the pre-merge head commit is now referenced by
 			// nothing but the merge state
 			p.MergeVariant = "head-moved"
@@ -768,6 +768,7 @@ func c08states(c *rig.Ctx) {
 	tl.flush(c)
 	c.Require(tl.get("c08.gc_runs_collected_garbage") > 0, "no dolt_gc run collected a garbage commit")
 	c.Require(tl.get("c08.gc_runs") >= n, "too few successful collections")
+	c.Require(tl.get("c08.state.merge.head-moved") > 0, "no repository with a merge state that alone references the pre-merge head")
 	for _, f := range []string{"merge", "cherrypick", "revert", "rebase", "stash", "tag", "remote"} {
 		c.Require(tl.get("c08.state."+f) > 0, "no repository in state "+f)
 		c.Require(tl.get("c08.consumed."+f) > 0, "state "+f+" was never consumed successfully after the collections")
